@@ -8,6 +8,8 @@ type PropRun struct {
 
 // Registry maps property ids to their checkers.
 var Registry = map[string]PropRun{
+	"C01": {"other", RunC01},
+	"C02": {"other", RunC02},
 	"C04": {"proof", RunC04},
 	"C17": {"proof", RunC17},
 	"C18": {"proof", RunC18},
